@@ -182,7 +182,11 @@ def apply_stub_using_libcst(
         transformed_source_module = transformer.transform_module(source_module)
 
         if confine_new_imports_in_type_checking_block:
-            newly_imported_items = get_newly_imported_items(stub_module, source_module)
+            # What `apply` really added: libcst may import a module instead of
+            # the stub's name to avoid a clash with a name the source imports
+            newly_imported_items = get_newly_imported_items(
+                transformed_source_module, source_module
+            )
 
             context = CodemodContext()
             MoveImportsToTypeCheckingBlockVisitor.store_imports_in_context(
